@@ -48,6 +48,9 @@ pub mod syntax;
 mod unit;
 mod unit_parser;
 pub mod units;
+#[cfg(feature = "verif")]
+#[doc(hidden)]
+pub mod verif;
 
 pub use self::compound::Compound;
 pub use self::db::{Constant, Db, Source};
